@@ -8,7 +8,9 @@ CHECK = dict(
     rule=("same generator as C01; each expression is simplified by each shipped configuration, "
           "the result is simplified again by a FRESH instance (empty cache) and by the same "
           "instance: both must return the identical object; termination restated as bounded "
-          "progress: a <=64-node expression must finish within 20 s where the median is <1 ms; "
+          "progress: a <=64-node expression must finish within 20 s where the median is <1 ms; every 40 "
+          "expressions a staged history runs (instance with PASS_COMMONS used on them, then "
+          "PASS_HIGH_TO_EXPLICIT enabled on the same instance, then idempotence on the same expressions); "
           "distinct = distinct alpha-renamed shapes"),
     assumptions=["termination is undecidable by finite runs: only bounded progress is observed",
                  "a single overrun is re-run alone before it counts"],
@@ -39,12 +41,17 @@ def run_shard(params, rec):
         return s
     simps = {c: fresh(c) for c in simp_lib.CONFIGS}
     n = params["n"]
+    recent = []
     for i in range(n):
+        if len(recent) >= 40:
+            staged_history(rec, recent, fresh, simp_lib)
+            recent = []
         if rng.random() < 0.55:
             e, tname = gen.directed(depth=rng.choice([0, 1, 1, 2]))
         else:
             e, tname = gen.expr(gen.width(), rng.choice([2, 3, 4, 5])), "random"
         rec.ev()
+        recent.append(e)
         if exprgen.nontrivial(e):
             rec.distinct(exprgen.shape(e))
         for cfg in sorted(simps):
@@ -113,9 +120,47 @@ def run_shard(params, rec):
                 rec.sample(dict(config=cfg, expr=str(e), simplified=str(out), stable=again_fresh is out))
 
 
+def staged_history(rec, exprs, fresh, simp_lib):
+    """the shipped configuration expr_simp_explicit is built by two enable_passes calls; here the instance is
+    USED between them (a user adding passes to a simplifier that already worked): afterwards it must still
+    be idempotent on its own outputs"""
+    from miasm.expression.simplifications import ExpressionSimplifier
+    s = ExpressionSimplifier()
+    s.enable_passes(ExpressionSimplifier.PASS_COMMONS)
+    try:
+        with common.time_limit(60):
+            for e in exprs:
+                try:
+                    s(e)
+                except RecursionError:
+                    pass
+                except Exception:
+                    pass
+            s.enable_passes(ExpressionSimplifier.PASS_HIGH_TO_EXPLICIT)
+            for e in exprs:
+                try:
+                    out = s(e)
+                    again = s(out)
+                except (RecursionError, Exception):
+                    rec.count("staged_raised")
+                    continue
+                rec.count("staged_compared")
+                if again is not out:
+                    rec.fail("not idempotent after enable_passes on an instance already used, on %s"
+                             % simp_lib.pattern(out),
+                             "PASS_COMMONS, use, then PASS_HIGH_TO_EXPLICIT: simp(%s) = %s but simp of that = %s" % (
+                                 common.short(e), common.short(out), common.short(again)),
+                             dict(expr=repr(e), out=repr(out), again=repr(again)))
+    except common.CaseTimeout:
+        rec.count("staged_timeout")
+
+
 def floors(tier, counters, evaluations):
     miss = []
     if counters.get("idempotence_compared", 0) < 0.95 * 3 * evaluations:
         miss.append("fewer than 95% of cases reached the idempotence comparison (%d of %d)" % (
             counters.get("idempotence_compared", 0), 3 * evaluations))
+    if counters.get("staged_compared", 0) < 0.8 * evaluations:
+        miss.append("staged enable_passes histories compared on fewer than 80%% of the expressions (%d)" %
+                    counters.get("staged_compared", 0))
     return miss
